@@ -50,3 +50,8 @@ theorem chunk_cover (n s i : ℕ) (hs : 0 < s) (hi : i < n) :
     have h2 : i / s < k + 1 := by
       rw [Nat.div_lt_iff_lt_mul hs]; exact hk2
     omega
+
+/-- The rounded length `(n / s) * s` never leaves `[0, n]`: a defensive guard `rounded < 0 || rounded > len` in
+Chunk can never fire (the check treats such a panic row as unreachable). -/
+theorem chunk_rounded_in_range (n s : ℕ) : 0 ≤ n / s * s ∧ n / s * s ≤ n :=
+  ⟨Nat.zero_le _, Nat.div_mul_le_self n s⟩
